@@ -1364,6 +1364,10 @@ func (f *Frame) checkAnchors(c *cursor, b *ssa.BasicBlock, idx int, in ssa.Instr
 			} else {
 				f.sites[s.Name] = c.reach
 			}
+			if f.siteStates == nil {
+				f.siteStates = map[string]*State{}
+			}
+			f.siteStates[s.Name] = c.st.clone()
 			if call, ok := in.(*ssa.Call); ok {
 				if f.siteArgs == nil {
 					f.siteArgs = map[string]sval{}
